@@ -79,7 +79,7 @@ fn ops_strategy() -> BoxedStrategy<Vec<Op>> {
         7 => blk().prop_map(|blk| Op::Finalise { blk }),
         2 => (1u8..4, ts_strategy()).prop_map(|(n, ts)| Op::Mine { n, ts }),
         2 => Just(Op::Commit),
-        1 => (0u8..4).prop_map(|depth| Op::Reorg { depth }),
+        1 => (0u8..4).prop_map(|depth| Op::Reorg { depth, keep_soft: false }),
     ];
     (first_op(), (0u8..5, log_prog(), blk()), proptest::collection::vec(op, 10..50))
         .prop_map(|(f, (from, prog, blk), mut rest)| {
